@@ -44,8 +44,8 @@ theorem atanQ_step (q : Nat) (h : q < 81920) :
   have : (r'' : Int) = (r' : Int) := by
     have := hr''.symm.trans hr'
     exact Except.ok.inj this
-  refine ⟨r, r', hr, hr', by omega, by exact_mod_cast hle, ?_⟩
-  rw [← this]; unfold atanMax; exact_mod_cast hmax
+  refine ⟨r, r', hr, hr', by omega, by omega, ?_⟩
+  unfold atanMax; omega
 
 /-- every table entry exists and is in `[0, atanMax]` -/
 theorem atanQ_ok (q : Nat) (h : q ≤ 81920) : ∃ r : Int, atanQ q = .ok r ∧ 0 ≤ r ∧ r ≤ atanMax := by
